@@ -21,8 +21,8 @@ import Glom.Model.C10Val
     Not.glomit                 → `.not`
     Switch.glomit              → `evalSwitch`   (value spec errors are *not* caught; default
                                  only when no key passed)
-    Check.__init__ / glomit    → `checkInit` / `checkGlomit` (early returns, `errs` list,
-                                 raw default for a validator returning False)
+    Check.__init__ / glomit    → `checkInit` / `checkGlomit` (early returns through `arg_val` of the
+                                 default at the first failing condition, `errs` list otherwise)
     __and__/__or__/__invert__/__rand__  → `applyBin`/`applyInv` over the extracted `boolOps`
     _glom_match                → the `.ty/.dict/.list/.set/.fset/.tuple/.pred/.lit` cases
     _handle_dict               → `handleDict` (`required`, `defaults`, per-target-key
@@ -333,14 +333,9 @@ def checkInit (a : CheckArgs) : Except PyExc CheckObj :=
 
 def fnLog (f : Fn) : Log := match f.1 with | some i => [i] | none => []
 
-/-- what `return self.default` hands back: the default object itself, not `arg_val` of it -/
-def rawDefault : Arg → V
-  | .const v => v
-  | .t _ => .obj "rawT"
-
 inductive ValidRes where
   | errs (n : Nat)          -- loop finished; `n` messages appended to `errs`
-  | ret (v : V)             -- `return self.default`
+  | useDefault              -- `return arg_val(target, self.default, scope)` from the except clause
   | raise (e : PyExc)       -- a validator raised something `except Exception` does not catch
   deriving Repr, DecidableEq
 
@@ -350,17 +345,21 @@ def addErrs (extra : Nat) (pre : Log) (r : ValidRes × Log) : ValidRes × Log :=
    | .errs n => .errs (n + extra)
    | other => other, pre ++ r.2)
 
-def runValidators (env : Env) (dflt : Option Arg) : List Fn → V → ValidRes × Log
+/-- `for validator in self.validators: try: res = validator(target); if res is False: raise
+    _ValidationError / except Exception: if self.default is not RAISE: return arg_val(…) /
+    errs.append(…)` — `hasDefault`: `self.default is not RAISE` -/
+def runValidators (env : Env) (hasDefault : Bool) : List Fn → V → ValidRes × Log
   | [], _ => (.errs 0, [])
   | f :: fs, t =>
     match predApply f.2 t with
     | .ret (.bool false) =>        -- `res is False` → _ValidationError → caught below
-      (match dflt with
-       | some d => (.ret (rawDefault d), fnLog f)
-       | none => addErrs 1 (fnLog f) (runValidators env dflt fs t))
-    | .ret _ => addErrs 0 (fnLog f) (runValidators env dflt fs t)
+      if hasDefault then (.useDefault, fnLog f)
+      else addErrs 1 (fnLog f) (runValidators env hasDefault fs t)
+    | .ret _ => addErrs 0 (fnLog f) (runValidators env hasDefault fs t)
     | .raise c =>
-      if catchesAt env "Check.glomit" 0 ⟨c⟩ then addErrs 1 (fnLog f) (runValidators env dflt fs t)
+      if catchesAt env "Check.glomit" 0 ⟨c⟩ then
+        (if hasDefault then (.useDefault, fnLog f)
+         else addErrs 1 (fnLog f) (runValidators env hasDefault fs t))
       else (.raise ⟨c⟩, fnLog f)
 
 /-- the body of `Check.glomit` once the subject `t` is known (`t0` = the original target, returned) -/
@@ -369,9 +368,9 @@ def checkOn (env : Env) (o : CheckObj) (t t0 : V) : Out :=
   if typeBad && o.default.isSome then (argVal (o.default.getD (.const .none)) t, []) else
   let valsBad := !o.vals.isEmpty && !pyIn t o.vals
   if valsBad && o.default.isSome then (argVal (o.default.getD (.const .none)) t, []) else
-  let vr := runValidators env o.default o.validators t
+  let vr := runValidators env o.default.isSome o.validators t
   match vr.1 with
-  | .ret v => (.ok v, vr.2)
+  | .useDefault => (argVal (o.default.getD (.const .none)) t, vr.2)
   | .raise e => (.error e, vr.2)
   | .errs n =>
     let instBad := !o.instanceOf.isEmpty && !o.instanceOf.any (fun c => isInst env.cls t c)
